@@ -297,3 +297,6 @@ func Recover(f func()) (panicked bool, msg string) {
 	f()
 	return
 }
+
+// Str2 renders a Go string as a Coq string literal (string_scope).
+func Str2(s string) string { return "\"" + strings.ReplaceAll(s, "\"", "\"\"") + "\"" }
